@@ -365,14 +365,13 @@ void vfps::KickMap::updateSM()
 
             // write heritage map
             for (unsigned int j1=0; j1<_it; j1++) {
-                unsigned int j0 = jd+j1-(_it-1)/2;
-                if(j0 < static_cast<meshindex_t>(_meshsize_kd)) {
-                    ph[j1].index = j0;
-                    ph[j1].weight = smc[j1];
-                } else {
-                    ph[j1].index = _meshsize_kd/2;
-                    ph[j1].weight = 0;
-                }
+                // index relative to the center of the kick axis; apply()
+                // subtracts the center again and skips source cells that
+                // are outside of the grid. (An index below zero or above
+                // the mesh size can still address a valid source cell,
+                // so no interpolation node may be dropped here.)
+                ph[j1].index = jd+j1-(_it-1)/2;
+                ph[j1].weight = smc[j1];
                 _hinfo[i*_ip+j1] = ph[j1];
             }
         } else {
